@@ -16,13 +16,25 @@
 (*  {"ev":"enter","t":t,"s":s}   {"ev":"exit","t":t,"s":s}                     *)
 (*  {"ev":"emit","t":t,"m":m,"ml":[[n,v]..],"k":kind,"n":deliveries,          *)
 (*   "rk":kind received,"rm":name received,"key":[[n,v]..]}                    *)
+(*  {"ev":"hist","s":s,"ops":[..]}  calls of SEVERAL threads around span s,    *)
+(*   each with start / end tickets "st" < "en" from one SeqCst counter:        *)
+(*     {"op":"rec","t":t,"n":n,"v":v,"st":..,"en":..}   (one recorder thread,  *)
+(*                                                        sequential)           *)
+(*     {"op":"emit","t":t,"m":m,"ml":[..],"kd":kind,"cnt":deliveries,"rk":..,  *)
+(*      "rm":..,"key":[..],"st":..,"en":..}                                     *)
+(*   RecordVisible: every emission is explained by the state after p of the    *)
+(*   records, for some p between the number of records that RETURNED before it *)
+(*   started and the number that STARTED before it ended (an emission that     *)
+(*   started after record() returned carries the recorded value; an overlapping*)
+(*   one may carry either).                                                    *)
 EXTENDS TracingLabels, Json, IOUtils, TLCExt
-VARIABLE l
+VARIABLES l,     \* next trace line
+          hok    \* every emission of every concurrent history so far is explained (RecordVisible)
 Rec == ndJsonDeserialize(IOEnv.TRACE)
-tvars == <<vars, l>>
+tvars == <<vars, l, hok>>
 
 E == Rec[l]
-Step == l' = l + 1
+Step == l' = l + 1 /\ UNCHANGED hok
 
 FilterOf(j) == [kind |-> j.kind, names |-> ToSet(j.names), deny |-> ToSet(j.deny)]
 
@@ -42,9 +54,45 @@ EmitObserved(e) ==
              model |-> Deliver(e.t, e.m, e.ml), vis |-> Vis(Cur(e.t))]
   /\ UNCHANGED <<par, labels, stack, filter, own, psnap, nops>>
 
+\* ---- concurrent histories around one span
+RecsOf(h) == SelectSeq(h.ops, LAMBDA o : o.op = "rec")
+EmitsOf(h) == SelectSeq(h.ops, LAMBDA o : o.op = "emit")
+RECURSIVE LabelsAfter(_, _, _), OwnAfter(_, _, _)
+\* the span's stored map / own fields after the first p records of the history
+LabelsAfter(L, recs, p) ==
+  IF p = 0 THEN L ELSE ExtendOverwrite(LabelsAfter(L, recs, p - 1), FromRecord(<<<<recs[p].n, recs[p].v>>>>))
+OwnAfter(f, recs, p) == IF p = 0 THEN f ELSE Put(OwnAfter(f, recs, p - 1), recs[p].n, recs[p].v)
+
+Explained(h, recs, em) ==
+  LET k == Len(recs)
+      lo == Cardinality({i \in 1..k : recs[i].en < em.st})     \* returned before the emission started
+      hi == Cardinality({i \in 1..k : recs[i].st < em.en})     \* started before the emission ended
+      c == Cur(em.t)
+  IN /\ em.cnt = 1 /\ em.rk = em.kd /\ em.rm = em.m /\ Distinct(em.ml) /\ em.st < em.en
+     /\ \E p \in lo..hi :
+          LET L == IF c = 0 THEN <<>> ELSE IF c = h.s THEN LabelsAfter(labels[c], recs, p) ELSE labels[c]
+          IN /\ SameBag(em.key, DeliverOn(filter, L, c # 0, em.m, em.ml))
+             /\ (L = <<>> => em.key = em.ml)
+
+HistStep(h) ==
+  LET recs == RecsOf(h)
+      ems == EmitsOf(h)
+      k == Len(recs)
+  IN /\ h.s \in Spans
+     /\ \A i \in 1..k : recs[i].st < recs[i].en /\ (i < k => recs[i].en < recs[i + 1].st)   \* one sequential recorder
+     /\ hok' = (hok /\ \A i \in DOMAIN ems : Explained(h, recs, ems[i]))
+     /\ labels' = [labels EXCEPT ![h.s] = LabelsAfter(@, recs, k)]
+     /\ own' = [own EXCEPT ![h.s] = OwnAfter(@, recs, k)]
+     /\ nops' = nops + k
+     /\ l' = l + 1
+     /\ UNCHANGED <<par, stack, filter, psnap, out>>
+
+RecordVisible == hok
+
 TraceNext ==
   /\ l <= Len(Rec)
-  /\ CASE E.ev = "reset" -> ResetTo(FilterOf(E.filter)) /\ Step
+  /\ CASE E.ev = "reset" -> ResetTo(FilterOf(E.filter)) /\ l' = l + 1 /\ hok' = TRUE
+       [] E.ev = "hist"  -> HistStep(E)
        [] E.ev = "new"   -> NewSpan(E.t, E.pm, E.fs) /\ NSpans' = E.id /\ Step
        [] E.ev = "rec"   -> Record(E.s, E.n, E.v) /\ Step
        [] E.ev = "enter" -> Enter(E.t, E.s) /\ Step
@@ -52,7 +100,7 @@ TraceNext ==
        [] E.ev = "emit"  -> EmitObserved(E) /\ Step
        [] OTHER -> FALSE        \* panic / unknown event: not a behaviour
 
-TraceInit == Init /\ l = 1
+TraceInit == Init /\ l = 1 /\ hok = TRUE
 TraceSpec == TraceInit /\ [][TraceNext]_tvars
 TraceAccepted ==
   LET d == TLCGet("stats").diameter IN
